@@ -264,6 +264,11 @@ int main(int argc, char **argv)
 				os << " orig=" << enc(m.get());
 				const unsigned nm(m2->move_legal(t2.get()) + m2->Header()->move_legal(t2->Header()) + m2->Trailer()->move_legal(t2->Trailer()));
 				os << " moved=" << enc(t2.get());
+				// move_legal into a SHALLOW target (created with _do(false), the way Message::factory creates the message it decodes into:
+				// its group objects do not exist yet and have to be inserted, not replaced)
+				std::unique_ptr<Message> m3(build(w, 1)), t3(bme->_create._do(false));
+				m3->move_legal(t3.get()); m3->Header()->move_legal(t3->Header()); m3->Trailer()->move_legal(t3->Trailer());
+				os << " smoved=" << enc(t3.get());
 			}
 			else if (w.size() >= 3 && w[0] == "xcopy")		// xcopy <target msgtype hex> M=<source> items: copy_legal of the body into a fresh message of ANOTHER type
 			{
